@@ -71,3 +71,11 @@ func verifSameDuration(got, want time.Duration) bool
 // verifObserve records an observable for the concordance check (engine
 // prediction under the model vs. native execution).
 func verifObserve(tag string, v uint64)
+
+// verifWire: the serialised form of a BytesValue message with the given payload.
+// The engine models proto.Marshal/Unmarshal as carrying the payload bytes
+// unchanged; natively this is the real protobuf encoding.
+func verifWire(payload []byte) []byte
+
+// verifNative: false under the symbolic engine, true in a native replay.
+func verifNative() bool
